@@ -3,6 +3,7 @@ package props
 import (
 	"context"
 	"github.com/glebziz/fs_db"
+	"math/rand"
 	"path/filepath"
 	"sync"
 	"sync/atomic"
@@ -193,57 +194,13 @@ func c13Concurrent(tier string, seed int64, idx int, scratch string) rt.CaseResu
 		c.AddDistinct(fmt.Sprintf("concurrent-end/%s/level%d/%s", modeName(mode), level, end))
 		// two goroutines end one transaction at the same time: whatever the two calls return,
 		// a Commit that returned nil has published the writes, and if none did nothing is visible
-		tx2, err := env.DB.Begin(ctxBg, verif.IsoLevel(rng.Intn(2)))
-		if err != nil {
-			c.Violate("begin-failed", err.Error(), nil)
-			return c
-		}
-		val := fmt.Sprintf("d%d-%d", idx, it)
-		tx2.Set(ctxBg, "d", []byte(val))
-		second := []string{"commit", "rollback"}[it%2]
-		var errs [2]error
-		start := make(chan struct{})
-		var ewg sync.WaitGroup
-		for g := 0; g < 2; g++ {
-			ewg.Add(1)
-			go func(g int) {
-				defer ewg.Done()
-				<-start
-				if g == 1 && second == "rollback" {
-					errs[g] = tx2.Rollback(ctxBg)
-				} else {
-					errs[g] = tx2.Commit(ctxBg)
-				}
-			}(g)
-		}
-		close(start)
-		ewg.Wait()
-		committed := errs[0] == nil || (second == "commit" && errs[1] == nil)
-		rp := map[string]any{"iteration": it, "mode": modeName(mode), "calls": "commit||" + second, "results": fmt.Sprint(errs[0], " / ", errs[1])}
-		for g, e := range errs {
-			if e != nil && seqrun.Class(e) != refmodel.TxNotFound {
-				c.Violate("wrong-error op=concurrent-end got="+string(seqrun.Class(e)), fmt.Sprintf("call %d of commit||%s on one transaction returned %v", g, second, e), rp)
+		for rep := 0; rep < 8; rep++ {
+			var bad bool
+			curD, bad = doubleEnd(&c, env, rng, fmt.Sprintf("d%d-%d-%d", idx, it, rep), curD, (it+rep)%2, "C13")
+			if bad {
 				return c
 			}
 		}
-		b, gerr := env.DB.Get(ctxBg, "d")
-		got := string(b)
-		if gerr != nil {
-			got = "<" + string(seqrun.Class(gerr)) + ">"
-		}
-		c.Evals++
-		switch {
-		case committed && got != val:
-			c.Violate("successful-commit-lost concurrent-end", fmt.Sprintf("commit||%s on one transaction: a Commit returned nil, but key d reads %s instead of %q", second, got, val), rp)
-			return c
-		case !committed && got != curD:
-			c.Violate("write-visible-without-commit concurrent-end", fmt.Sprintf("commit||%s on one transaction: no Commit returned nil, but key d reads %s instead of %s", second, got, curD), rp)
-			return c
-		}
-		if committed {
-			curD = val
-		}
-		c.AddDistinct(fmt.Sprintf("double-end/%s/commit||%s/committed=%v", modeName(mode), second, committed))
 	}
 	if idx == 0 {
 		c.Sample = map[string]any{"scenario": "3 goroutines read through a transaction while it is committed/rolled back; reads issued afterwards must fail", "iterations": iters}
@@ -472,4 +429,68 @@ func c13DeadCtx(tier string, seed int64, idx int, scratch string) rt.CaseResult 
 		c.Sample = map[string]any{"scenario": "Commit/Rollback with a cancelled context, then the real end", "mode": modeName(mode)}
 	}
 	return c
+}
+
+// doubleEnd: Commit||Commit or Commit||Rollback on one transaction, released together by a spin
+// barrier. Returns the value key "d" has afterwards.
+func doubleEnd(c *rt.CaseResult, env *dbx.Env, rng *rand.Rand, val, curD string, secondKind int, prop string) (string, bool) {
+	tx2, err := env.DB.Begin(ctxBg, verif.IsoLevel(rng.Intn(4)))
+	if err != nil {
+		c.Violate("begin-failed", err.Error(), nil)
+		return curD, true
+	}
+	tx2.Set(ctxBg, "d", []byte(val))
+	second := []string{"commit", "rollback"}[secondKind]
+	var errs [2]error
+	var goFlag atomic.Bool
+	var ewg, ready sync.WaitGroup
+	for g := 0; g < 2; g++ {
+		ewg.Add(1)
+		ready.Add(1)
+		go func(g int) {
+			defer ewg.Done()
+			ready.Done()
+			for !goFlag.Load() {
+			}
+			if g == 1 && second == "rollback" {
+				errs[g] = tx2.Rollback(ctxBg)
+			} else {
+				errs[g] = tx2.Commit(ctxBg)
+			}
+		}(g)
+	}
+	ready.Wait()
+	goFlag.Store(true)
+	ewg.Wait()
+	committed := errs[0] == nil || (second == "commit" && errs[1] == nil)
+	rp := map[string]any{"mode": modeName(env.Opt.Mode), "calls": "commit||" + second, "results": fmt.Sprint(errs[0], " / ", errs[1])}
+	for g, e := range errs {
+		if e != nil && seqrun.Class(e) != refmodel.TxNotFound && seqrun.Class(e) != refmodel.TxSerial {
+			c.Violate("wrong-error op=concurrent-end got="+string(seqrun.Class(e)), fmt.Sprintf("call %d of commit||%s on one transaction returned %v", g, second, e), rp)
+			return curD, true
+		}
+	}
+	if second == "commit" && errs[0] == nil && errs[1] == nil {
+		c.Violate("both-commits-of-one-transaction-succeeded concurrent-end", "Commit||Commit on one transaction: both returned nil, one of them must find the transaction gone", rp)
+		return curD, true
+	}
+	b, gerr := env.DB.Get(ctxBg, "d")
+	got := string(b)
+	if gerr != nil {
+		got = "<" + string(seqrun.Class(gerr)) + ">"
+	}
+	c.Evals++
+	switch {
+	case committed && got != val:
+		c.Violate("successful-commit-lost concurrent-end", fmt.Sprintf("commit||%s on one transaction: a Commit returned nil, but key d reads %s instead of %q", second, got, val), rp)
+		return curD, true
+	case !committed && got != curD:
+		c.Violate("write-visible-without-commit concurrent-end", fmt.Sprintf("commit||%s on one transaction: no Commit returned nil, but key d reads %s instead of %s", second, got, curD), rp)
+		return curD, true
+	}
+	if committed {
+		curD = val
+	}
+	c.AddDistinct(fmt.Sprintf("double-end/%s/commit||%s/committed=%v", modeName(env.Opt.Mode), second, committed))
+	return curD, false
 }
